@@ -294,10 +294,10 @@ Proof.
 Qed.
 
 Lemma fold_incr : forall cs cnt j, 0 < j ->
-  fold_left incr cs cnt j = (cnt j + cnt_occ cs j)%nat.
+  fold_left bump cs cnt j = (cnt j + cnt_occ cs j)%nat.
 Proof.
   induction cs as [|c cs IH]; intros cnt j Hj; cbn [fold_left]; [cbn; lia|].
-  rewrite IH by exact Hj. unfold incr. destruct (Z.ltb_spec 0 c) as [Hc|Hc].
+  rewrite IH by exact Hj. unfold bump. destruct (Z.ltb_spec 0 c) as [Hc|Hc].
   - unfold upd_cnt. destruct (Z.eqb_spec j c) as [->|Hne].
     + rewrite cnt_occ_cons_eq. lia.
     + rewrite cnt_occ_cons_neq by congruence. lia.
@@ -379,11 +379,11 @@ Proof.
         split; [|exact Hnext]. unfold find_dup in Ed. apply find_some in Ed. destruct Ed as [Hn _].
         pose proof (inv_range _ _ HI n Hn) as Hr.
         constructor; cbn [st_nodes st_cnt st_names st_next]; try apply HI.
-        -- intros id Hid. unfold incr. destruct (Z.ltb_spec 0 (sn_id n)); [|lia].
+        -- intros id Hid. unfold bump. destruct (Z.ltb_spec 0 (sn_id n)); [|lia].
            unfold upd_cnt, name_refs. cbn [map snd]. destruct (Z.eqb_spec id (sn_id n)) as [->|Hne].
            ++ rewrite cnt_occ_cons_eq, (inv_exact _ _ HI (sn_id n) Hid). unfold name_refs. lia.
            ++ rewrite cnt_occ_cons_neq by congruence. apply (inv_exact _ _ HI id Hid).
-        -- intros id Hid. unfold incr. destruct (Z.ltb_spec 0 (sn_id n)); [|lia].
+        -- intros id Hid. unfold bump. destruct (Z.ltb_spec 0 (sn_id n)); [|lia].
            unfold upd_cnt. destruct (Z.eqb_spec id (sn_id n)) as [->|Hne].
            ++ split; [intros _; now exists n|lia].
            ++ apply (inv_live _ _ HI id Hid).
@@ -440,13 +440,13 @@ Proof.
     destruct (lookup_name (st_names s) nm) as [id|] eqn:El; [|split; assumption].
     split; [|exact Hnext]. pose proof (lookup_name_in _ _ _ El) as Hin.
     constructor; cbn [st_nodes st_cnt st_names st_next]; try apply HI.
-    + intros j Hj. unfold incr, name_refs. cbn [map snd].
+    + intros j Hj. unfold bump, name_refs. cbn [map snd].
       destruct (Z.ltb_spec 0 id) as [Hp|Hp].
       * unfold upd_cnt. destruct (Z.eqb_spec j id) as [->|Hne].
         -- rewrite cnt_occ_cons_eq, (inv_exact _ _ HI id Hj). unfold name_refs. lia.
         -- rewrite cnt_occ_cons_neq by congruence. apply (inv_exact _ _ HI j Hj).
       * rewrite cnt_occ_cons_neq by lia. apply (inv_exact _ _ HI j Hj).
-    + intros j Hj. unfold incr. destruct (Z.ltb_spec 0 id) as [Hp|Hp]; [|apply (inv_live _ _ HI j Hj)].
+    + intros j Hj. unfold bump. destruct (Z.ltb_spec 0 id) as [Hp|Hp]; [|apply (inv_live _ _ HI j Hj)].
       unfold upd_cnt. destruct (Z.eqb_spec j id) as [->|Hne]; [|apply (inv_live _ _ HI j Hj)].
       split; [intros _|lia]. apply (referenced_live [] s id HI Hp).
       assert (1 <= name_refs (st_names s) id)%nat; [|lia].
